@@ -228,6 +228,14 @@ def run(ctx):
     traces["USER"] = trace_for("USER", udat, unames, "parse", udat, unames)
     fd = os.path.join(ctx.work, "pairs")
     os.makedirs(fd, exist_ok=True)
+    # a built-in parameter file with a user names file (--ff=X --usernames=F without --userff): F is the map that counts
+    for ffn, drop in (("AMBER", "WAT"), ("PARSE", "HIS"), ("CHARMM", "LYS")):
+        names_text = open(os.path.join(DAT, ffn + ".names")).read()
+        cut = re.sub(r"<residue>\s*<name>" + drop + r"</name>.*?</residue>", "", names_text, count=1, flags=re.S)
+        if cut != names_text:
+            nf = os.path.join(fd, f"{ffn}-without-{drop}.names")
+            open(nf, "w").write(cut)
+            traces[f"{ffn}+usernames"] = trace_for(f"{ffn}+usernames", os.path.join(DAT, ffn + ".DAT"), nf, ffn.lower(), None, nf)
     npairs = 40 if ctx.quick else 300
     for k in range(npairs):
         d, n = random_pair(rng, fd, k)
